@@ -64,7 +64,8 @@ def main():
             out["checks"][pid] = {"rc": r.returncode, "verdict": {0: "MISSED", 1: "CAUGHT", 2: "INCONCLUSIVE", 3: "HARNESS-ERROR"}.get(r.returncode, "?"), "first": first}
         print(json.dumps(out, indent=1))
         if "--record" in a:
-            meta["evaluation"] = {"tests": out.get("tests"), "tests_pass": out.get("tests_pass"),
+            prev = meta.get("evaluation") or {}
+            meta["evaluation"] = {"tests": out.get("tests", prev.get("tests")), "tests_pass": out.get("tests_pass", prev.get("tests_pass")),
                                   "demo_fails_with_change": out["demo_with_change_rc"] != 0,
                                   "demo_passes_without_change": out["demo_without_change_rc"] == 0,
                                   "checks": {k: v["verdict"] for k, v in out["checks"].items()},
